@@ -526,4 +526,112 @@ def pageFileList (natural : Bool) (ordered enum : List Str) : List Str :=
 def pageFileListTree (ordered enum : List Str) : List Str := pageFileList Gen.C12.pageListNatural ordered enum
 
 
+/-! ### round 6: the colours of the edges of a hop (`FortranGraph.add_nodes`) -/
+
+/-- `enumerate`: the position of the node with identifier `i` in `order` -/
+def posOf (order : List Node) (i : Str) : Nat := (order.map (·.ident)).idxOf i
+
+/-- `FortranGraph.add_nodes` with `coloured_edges`: the nodes of a hop are handled in sorted order, and the edges
+    that leave a node get colour number `k` of `len(nodes)` (`rainbowcolour(k, total_len)`).
+    `bySortedIndex = true`: `k` is the position of the node in the sorted list (`enumerate(sorted(nodes))`, the
+    tree as it is); `false`: `k` is its position in the collection as it is iterated (`ω nodes`; for the set
+    `hop_nodes` that is hash order).  Result: (identifier, colour number) in emission order. -/
+def hopColours (bySortedIndex : Bool) (ω : List Node → List Node) (nodes : List Node) : List (Str × Nat) :=
+  let emitted := emitNodesTree nodes
+  let numbered := if bySortedIndex then emitted else ω nodes
+  emitted.map fun n => (n.ident, posOf numbered n.ident)
+
+/-- ... in the working tree (switch probed on the real `add_nodes` on every run) -/
+def hopColoursTree (ω : List Node → List Node) (nodes : List Node) : List (Str × Nat) :=
+  hopColours Gen.C12.edgeColourBySortedIndex ω nodes
+
+/-! ### round 6: source files that are reachable under more than one path (`find_all_files`) -/
+
+/-- keep the first path of every real file: `seen` holds the real files met so far -/
+def dedupByReal (real : Path → Path) : List Path → List Path → List Path
+  | _, [] => []
+  | seen, p :: ps =>
+    if seen.contains (real p) then dedupByReal real seen ps
+    else p :: dedupByReal real (real p :: seen) ps
+
+/-- `find_all_files` on the directory entries in the order the file system hands them out (`listing`; what
+    `Path.glob` yields follows `os.scandir`).  `real p` is the file a path leads to (`Path.resolve()`: the target
+    of a symbolic link, else the path itself).  `firstCome = false`: every matching path is a source file (the
+    tree as it is: a linked file is documented once per path); `firstCome = true`: a path whose file was met
+    before under another path is dropped. -/
+def findSourcesListed (firstCome : Bool) (real : Path → Path) (srcDirs excl : List Path) (exts : List Str)
+    (listing : List Path) : List Path :=
+  let hits := listing.filter fun p => srcDirs.any (isBelow · p) && !excl.any (isBelow · p) && hasSourceName exts p
+  if firstCome then dedupByReal real [] hits else hits
+
+/-- ... in the working tree (switch probed on the real `find_all_files` on every run) -/
+def findSourcesListedTree (real : Path → Path) (srcDirs excl : List Path) (exts : List Str) (listing : List Path) :
+    List Path :=
+  findSourcesListed Gen.C12.sourceAliasesFirstCome real srcDirs excl exts listing
+
+/-! ### round 6: `FortranBase.sort_components` (the `sort` option) -/
+
+/-- what the sort keys read of a variable: `vartype`, `kind`, `strlen`, `proto[0]` (empty = falsy) -/
+structure VarSig where
+  vartype : Str
+  kind : Str
+  strlen : Str
+  proto : Str
+deriving DecidableEq, Repr
+
+/-- an entry of one of the entity lists of a program unit / type / procedure -/
+structure Comp where
+  uid : Nat
+  name : Str
+  obj : Str
+  /-- `getattr(item, "permission", "default")` -/
+  permission : Str
+  var : VarSig
+  /-- `item.proctype`, empty when the attribute is missing -/
+  proctype : Str
+  /-- `item.retvar` of a function -/
+  retvar : Option VarSig
+deriving DecidableEq, Repr
+
+/-- `permission(item)`: rank in `{"default": 0, "public": 1, "protected": 2, "private": 3}` (the code raises
+    `KeyError` on anything else; the model gives 0) -/
+def permRank (p : Str) : Nat :=
+  if p == cs! "public" then 1 else if p == cs! "protected" then 2 else if p == cs! "private" then 3 else 0
+
+/-- `fortran_type_name` of a variable -/
+def varTypeName (v : VarSig) : Str :=
+  let r := if v.vartype == cs! "class" then cs! "type" else v.vartype
+  let r := if v.kind.isEmpty then r else r ++ '-' :: v.kind
+  let r := if v.strlen.isEmpty then r else r ++ '-' :: v.strlen
+  if v.proto.isEmpty then r else r ++ '-' :: v.proto
+
+/-- `fortran_type_name(item)` -/
+def fortranTypeName (c : Comp) : Str :=
+  if c.obj == cs! "variable" then varTypeName c.var
+  else if c.obj == cs! "proc" && !c.proctype.isEmpty then
+    lower c.proctype ++
+      (if c.proctype == cs! "Function" then
+        match c.retvar with
+        | some v => '-' :: varTypeName v
+        | none => []
+       else [])
+  else c.obj
+
+/-- `SORT_KEY_FUNCTIONS[settings.sort.lower()]`: `none` for `src` (and for a word the table does not have, where
+    the code raises).  The integer key of `permission` is one digit, so comparing the digit as text is comparing
+    the number. -/
+def sortKeyFn (mode : Str) : Option (Comp → Str) :=
+  if mode == cs! "alpha" then some (·.name)
+  else if mode == cs! "permission" then some fun c => showNat (permRank c.permission)
+  else if mode == cs! "permission-alpha" then some fun c => showNat (permRank c.permission) ++ '-' :: c.name
+  else if mode == cs! "type" then some fortranTypeName
+  else if mode == cs! "type-alpha" then some fun c => fortranTypeName c ++ '-' :: c.name
+  else none
+
+/-- `entity.sort(key=sort_key)` for one entity list given in source order (`list.sort` is stable) -/
+def sortComponents (mode : Str) (l : List Comp) : List Comp :=
+  match sortKeyFn (lower mode) with
+  | some key => sortOn key l
+  | none => l
+
 end Ford.Order
